@@ -53,6 +53,11 @@ STEPS = 20000000
 #   ("nil",) ("b", bool) ("n", bits) ("s", bytes) ("c", id) ("r", id) ("T", (elems...), oid|None) ("u", tag)
 
 
+# ties between the function bodies translated from the Rust source on every run (Gen/Fns.lean) and the hand-written models
+THEOREM_MODULES.append("Yarel.Props.FnsTie.Hash")
+REQUIRED_THEOREMS += ['hash_number_tie']
+
+
 def bits_of(x):
     if x != x:
         return NAN_BITS
